@@ -322,12 +322,13 @@ pub fn main(args: &Args) -> i32 {
         replay: 2,
         restart: 2,
         leave: 2,
+        vanish: 2,
         ..Weights::default()
     };
     let spec = Spec {
         id: "C14",
         level: "exploration",
-        rule: "the histories and hostile inputs of C01..C07 (world plans with honest operations, races and rollbacks, rogue commits / proposals / rumors, replays, 22 kinds of mutated events, restarts; memory and SQLite), the crash-recovery runs of C12 and the invitation histories of C16 are executed under a capture of every tracing record (TRACE and up). Needles, read back through the API as the run goes: every MLS group id, every Nostr group id ever in force, exporter secrets of all reachable epochs, image key / nonce / upload seed, database keys - in raw, hex (both cases), base64 and Rust byte-list form. Haystacks: every record whose target belongs to the mdk crates, Display and Debug of every error, Debug of every MessageProcessingResult, Debug of the secret-holding types (Secret, EncryptionConfig, GroupExporterSecret, EpochSnapshot, EpochSnapshotManager). Non-trivial = the case produced records on an error path (WARN/ERROR) or error texts; distinct = distinct cases".into(),
+        rule: "the histories and hostile inputs of C01..C07 (world plans with honest operations, races and rollbacks, rogue commits / proposals / rumors, replays, 22 kinds of mutated events, restarts, stored snapshots pruned behind a client's back so that a later commit race runs into a failing rollback; memory and SQLite), the crash-recovery runs of C12 and the invitation histories of C16 are executed under a capture of every tracing record (TRACE and up). Needles, read back through the API as the run goes: every MLS group id, every Nostr group id ever in force, exporter secrets of all reachable epochs, image key / nonce / upload seed, database keys - in raw, hex (both cases), base64 and Rust byte-list form. Haystacks: every record whose target belongs to the mdk crates, Display and Debug of every error, Debug of every MessageProcessingResult, Debug of the secret-holding types (Secret, EncryptionConfig, GroupExporterSecret, EpochSnapshot, EpochSnapshotManager). Non-trivial = the case produced records on an error path (WARN/ERROR) or error texts; distinct = distinct cases".into(),
         assumptions: vec![
             "event ids, public keys of members and relay URLs are not identifiers in the property's sense (they are public on relays) and are not needles".into(),
             "derived Debug of plain data carriers (Group, GroupId, RollbackInfo) is out of scope; only logs, errors, results and the listed redacting types are judged".into(),
